@@ -659,6 +659,9 @@ def check(ctx):
     rule6(ctx, rep)
     rule7(ctx, rep)
     rule8(ctx, rep)
+    shared.borrow(ctx, rep, [
+        ('c03', lambda m: m.rule2(ctx, rep), 'a batch entry that keeps its do set is handed to the farm again on the next dispatch, whatever its upstream does by then'),
+    ])
     return rep
 
 
